@@ -458,7 +458,8 @@ impl<'a> Compiler<'a> {
                     .iter()
                     .find(|(import, _)| *import == prefix)
                 {
-                    // namespace.alias.suffix
+                    // namespace.alias.suffix, where leading `super.`s of the alias shorten the
+                    // namespace
                     let (super_depth, s) = super_depth(alias);
 
                     let name = self
@@ -473,7 +474,7 @@ impl<'a> Compiler<'a> {
                                 })?,
                         )
                         .flat_map(|x| [x.as_ref(), "."])
-                        .chain([alias, ".", s.unwrap_or(suffix)].iter().copied())
+                        .chain([s.unwrap_or(alias), ".", suffix].iter().copied())
                         .collect::<String>();
 
                     to = jump_table.get(&name);
@@ -1077,14 +1078,13 @@ impl<'a> Compiler<'a> {
 }
 
 fn super_depth(import: &str) -> (usize, Option<&str>) {
-    let mut super_pog = import.split_once("super.");
+    // only whole leading `super` segments count: `xsuper.foo` is an ordinary path
+    let mut rest = import;
     let mut super_cnt = 0;
-    let mut suffix = None;
-    while let Some((_sup_pre, sup_post)) = super_pog {
+    while let Some(sup_post) = rest.strip_prefix("super.") {
         super_cnt += 1;
-        super_pog = sup_post.split_once("super.");
-        suffix = Some(sup_post);
+        rest = sup_post;
     }
 
-    (super_cnt, suffix)
+    (super_cnt, (super_cnt > 0).then_some(rest))
 }
